@@ -136,6 +136,7 @@ type Project struct {
 	WeatherStart Date    `json:"weather_start"`
 	WeatherDays  int     `json:"weather_days"`
 	WeatherSeed  uint64  `json:"weather_seed"`
+	SunOutage    int     `json:"sunshine_sensor_outages,omitempty"` // the series has a sunshine column; this many 2-3 day outages (sunshine and radiation missing) per growing season
 	Climate      Climate `json:"climate"`
 	WeatherFmt   int     `json:"weather_fmt"` // 0 one file per year, 1 multi-year csv, 2 cz
 	Weather      []WDay  `json:"-"`
@@ -217,6 +218,23 @@ func (p *Project) GenWeather() {
 			RH:  vh.RoundTo(math.Min(99, math.Max(25, 78-12*season+15*(r.F()-0.5)+math.Min(rain, 10))), 0),
 			Sun: math.NaN(), Verd: math.NaN()}
 		p.Weather = append(p.Weather, wd)
+	}
+	if p.SunOutage > 0 && p.WeatherFmt != 2 {
+		// sunshine hours for every day (a station with a sunshine recorder); outages of two or three days inside the
+		// growing season on which neither sunshine nor radiation was recorded
+		for i := range p.Weather {
+			d := &p.Weather[i]
+			season := -math.Cos((float64(d.Date.DOY()) - 15) / 365 * 2 * math.Pi)
+			maxSun := 8 + 7*season
+			d.Sun = vh.RoundTo(math.Max(0, math.Min(maxSun, maxSun*(d.Rad/(11+9.5*season+2)))), 1)
+		}
+		for i := 0; i+3 < len(p.Weather); i++ {
+			if d := p.Weather[i].Date; d.M >= 4 && d.M <= 8 && d.D == 1+int(p.WeatherSeed%20) && (int(d.M)+d.Y)%2 == 0 {
+				for k := 0; k < 2+int((p.WeatherSeed>>8)%2) && k < p.SunOutage+1; k++ {
+					p.Weather[i+k].Sun, p.Weather[i+k].Rad = math.NaN(), math.NaN()
+				}
+			}
+		}
 	}
 }
 
@@ -484,7 +502,7 @@ func (p *Project) WriteWeather(root string) error {
 		b.WriteString("iso-date,tmin,tavg,tmax,precip,globrad,wind,relhumid,sunhours\n")
 		b.WriteString("[],[°C],[°C],[°C],[mm],[MJ m-2],[m/s],[%],[h]\n")
 		for _, d := range p.Weather {
-			fmt.Fprintf(&b, "%s,%g,%g,%g,%g,%g,%g,%g,%s\n", d.Date, d.Tmin, d.Tavg, d.Tmax, d.Precip, d.Rad, d.Wind, d.RH, fnum(d.Sun, none))
+			fmt.Fprintf(&b, "%s,%g,%g,%g,%g,%s,%g,%g,%s\n", d.Date, d.Tmin, d.Tavg, d.Tmax, d.Precip, fnum(d.Rad, none), d.Wind, d.RH, fnum(d.Sun, none))
 		}
 		return os.WriteFile(filepath.Join(dir, code+".csv"), []byte(b.String()), 0o644)
 	case 2:
@@ -507,7 +525,7 @@ func (p *Project) WriteWeather(root string) error {
 			b.WriteString("C_deg;C_deg;C_deg;mm;%;mm_Hg;m/s;hours;MJ m-2 d-1;mm;\n")
 			b.WriteString("50;2;-----;-----;-----;-----;-----;-----;------;-- -;-\n")
 			for _, d := range days {
-				fmt.Fprintf(&b, "%g;%g;%g;%s;%g;%s;%g;%s;%g;%g;%d\n", d.Tavg, d.Tmin, d.Tmax, none, d.RH, fnum(d.Verd, none), d.Wind, fnum(d.Sun, none), d.Rad, d.Precip, d.Date.DOY())
+				fmt.Fprintf(&b, "%g;%g;%g;%s;%g;%s;%g;%s;%s;%g;%d\n", d.Tavg, d.Tmin, d.Tmax, none, d.RH, fnum(d.Verd, none), d.Wind, fnum(d.Sun, none), fnum(d.Rad, none), d.Precip, d.Date.DOY())
 			}
 			if err := os.WriteFile(filepath.Join(dir, code+"."+YearExt(y)), []byte(b.String()), 0o644); err != nil {
 				return err
